@@ -3,6 +3,7 @@
 //    from the Rankine-Hugoniot / isentropic relations (independent Newton+bisection on the pressure function).
 //  * cp_normal: conjugate-normal model; prior N(m,sigma^2), data x_i ~ N(theta,sigma_d^2).
 #include "e1.hpp"
+#include <algorithm>
 #include <masa.h>
 
 namespace {
@@ -50,8 +51,11 @@ bool sod_ref(const Params& P, const Pt& p, std::vector<Expect>& out) {
   if (dist < Q(1e-6)) return true;  // too close to a wave front: no expectation at this point
   e1_count(std::string("sod region: ") + region);
   Q amp = 2 + 4 / (G - 1);  // conditioning of the pow() with exponents 1/Gamma, 2/(Gamma-1) and of p* w.r.t. mu, Gamma
-  out.push_back(mk("C08", "source_rho", "SS", p, V_XT, VS(rho, qabs(rho) * amp)));
-  out.push_back(mk("C08", "source_rho_u", "SS", p, V_XT, VS(rho * u, (qabs(rho * u) + qabs(rho) * s.cl) * amp)));
+  Expect er = mk("C08", "source_rho", "SS", p, V_XT, VS(rho, qabs(rho) * amp));
+  Expect em = mk("C08", "source_rho_u", "SS", p, V_XT, VS(rho * u, (qabs(rho * u) + qabs(rho) * s.cl) * amp));
+  // alternate the evaluation order from point to point: the first evaluator called after a parameter change is
+  // momentum at even points and density at odd ones, so neither can hide behind state refreshed by the other
+  if ((p.variant + (int)p.c[1]) % 2 == 0) { out.push_back(em); out.push_back(er); } else { out.push_back(er); out.push_back(em); }
   return true;
 }
 
@@ -97,16 +101,19 @@ bool cp_ref(const Params& P, const Pt& p, std::vector<Expect>& out) {
 
 struct Reg {
   Reg() {
-    {
-      System s; s.name = "sod_1d"; s.prop = "C08"; s.dim = 1;
+    for (int first = 0; first < 2; first++) {
+      System s; s.name = first ? "sod_1d[density-first]" : "sod_1d"; s.solution = "sod_1d"; s.prop = "C08"; s.dim = 1;
       s.base = [](Params& P) { P.m["Gamma"] = dy(1408); };
       s.frozen.push_back("mu");
       s.derive = [](Params& P) { Q G = P.m["Gamma"]; P.m["mu"] = (LD)((G - 1) / (G + 1)); };  // derived registered parameter
       s.alphabet = [](const std::string& n, LD b, LD d) { return std::vector<LD>{d, dy(1152), dy(1280), dy(1707), 2.0L, 3.0L, dy(1126)}; };
-      s.points = [](int tier) {
+      s.points = [first](int tier) {
         std::vector<Pt> pts; const long ts[] = {51, 205, 1024};
         int step = tier ? 1 : 2;  // xi = x/t on a dyadic grid: -2 .. 3.5 step 1/16 (thorough) or 1/8 (quick)
-        for (long tk : ts) for (int k = 0; k <= 88; k += step) { LD xi = -2.0L + (LD)k / 16.0L; LD t = dy(tk); pts.push_back(Pt(xi * t, 0, 0, t)); }
+        int cnt = 0; for (long tk : ts) for (int k = 0; k <= 88; k += step) { LD xi = -2.0L + (LD)k / 16.0L; LD t = dy(tk); Pt q(xi * t, 0, 0, t); q.variant = cnt++; q.c[1] = first; pts.push_back(q); }
+        // start inside the wave structure (xi = 0.5: between fan tail and contact for every Gamma of the alphabet), so that the very
+        // first evaluation after a parameter change is sensitive to every cached quantity
+        std::rotate(pts.begin(), pts.begin() + (tier ? 40 : 20), pts.end());
         return pts;
       };
       s.reference = sod_ref; s.max_dev_quick = 1; s.max_dev_thorough = 1;
